@@ -135,8 +135,11 @@ def capture_hash_tuple(d):
     if len(got) != 1 or not isinstance(got[0], tuple) or len(got[0]) != 16:
         return "unexpected %r" % (got,), h
     t = got[0]
-    w = "-" if t[0] is None else "(%d,%d)" % (t[0][0], t[0][1])
-    return "%s [%s] [%s]" % (w, ",".join(str(int(x)) for x in t[1:9]), ",".join(L.oint(x) for x in t[9:16])), h
+    try:
+        w = "-" if t[0] is None else "(%s,%s)" % (L.oint(t[0][0]), L.oint(t[0][1]))
+        return "%s [%s] [%s]" % (w, ",".join(str(int(x)) for x in t[1:9]), ",".join(L.oint(x) for x in t[9:16])), h
+    except Exception:
+        return "unexpected %r" % (t,), h
 
 
 def correspondence(ctx):
